@@ -32,6 +32,14 @@ ATOMS = [
     ("redundant", "c+", ["redundantAssignment"], "void f{n}(int x){{ int i; i = x; i = 2; (void)i; }}"),
     ("ptroob", "c+", ["pointerOutOfBounds"], "void f{n}(void){{ char a[10]; const char *p = a + 11; (void)p; }}"),
     ("unsignedlt", "c+", ["unsignedLessThanZero"], "int f{n}(unsigned u){{ if (u < 0) return 1; return 0; }}"),
+    ("wchar2", "c+", ["arrayIndexOutOfBounds"], "void f{n}(void){{ int a[sizeof(wchar_t)==2?2:10]; a[5]=0; }}"),   # 16-bit wchar_t: win32A/win32W/win64, not unix32
+    ("gnulib", "c+", ["bufferAccessOutOfBounds"], "void f{n}(void){{ char b[4]; mempcpy(b, \"abcdefgh\", 8); }}"),   # --library=gnu only
+    ("winlib", "c+", ["bufferAccessOutOfBounds"], "void f{n}(void){{ char b[4]; ZeroMemory(b, 8); }}"),              # --library=windows / windows platforms only
+    ("c11assert", "c", ["duplicateExpression"], "void f{n}(int a){{ _Static_assert(sizeof(a) == sizeof(a), \"m\"); }}"),  # not with --std=c11 (default)
+    ("cpp11assert", "+", ["duplicateExpression"], "void f{n}(int a){{ static_assert(sizeof(a) == sizeof(a), \"m\"); (void)a; }}"),  # only with --std=c++03
+    ("override", "+", ["missingOverride"], "struct B{n}{{virtual void f(); virtual ~B{n}();}}; struct D{n}:B{n}{{ void f(); }};"),   # not with --std=c++03
+    ("manycfg", "c+", ["zerodiv"], "\n".join("#ifdef MC{n}_%d\nint mc{n}_%d(int y){{return y/0;}}\n#endif" % (k, k) for k in range(14))),  # 14 configurations: beyond the default limit of 12 unless --force
+    ("vfiter", "c+", ["zerodiv"], "static int zero{n}(void){{return 0;}} int f{n}(void){{int a=zero{n}(); return 10/a;}}"),   # needs a second valueflow iteration: not with --check-level=reduced
     ("branches", "c+", ["zerodiv"], "int gb{n}(int); int f{n}(int a,int b,int c,int d,int e,int h){{ int x=0; if(a){{gb{n}(1);}} if(b){{gb{n}(2);}} if(c){{gb{n}(3);}} if(d){{gb{n}(4);}} if(e){{gb{n}(5);}} if(h){{gb{n}(6);}} return 10/x; }}"),  # only with --check-level=exhaustive
     # library-evaluated calls (std.cfg <returnValue> expressions, format strings, buffer sizes, containers)
     ("libabs", "c+", ["arrayIndexOutOfBounds"], "int f{n}(void){{ int a[3]={{0}}; return a[abs(-5)]; }}"),
@@ -54,12 +62,41 @@ ATOMS = [
     ("postfix", "+", ["postfixOperator"], "void f{n}(std::list<int>&l){{ for(std::list<int>::iterator it=l.begin(); it!=l.end(); it++){{}} }}"),
     ("uninitmember", "+", ["uninitMemberVar"], "class K{n} {{ public: K{n}(){{}} int m; }};"),
     ("fstatic", "+", ["functionStatic"], "class C{n} {{ public: int g(){{ return 1; }} int m; C{n}():m(0){{}} }};"),
+    # several entities / findings at one and the same source location (macro expansion): comparators that order by location tie
+    ("macrodecl", "c+", ["constVariablePointer"], "#define DECLP{n}(T,a,b,c,src) T *a = src; T *b = src; T *c = src\nint f{n}(int *data){{ DECLP{n}(int,p{n}a,p{n}b,p{n}c,data); return *p{n}a + *p{n}b + *p{n}c; }}"),
+    ("macrotwice", "c+", ["zerodiv"], "#define TWO{n}(x,y) ((x)/0 + (y)/0)\nint f{n}(int a, int b){{ return TWO{n}(a,b); }}"),
     ("contoob", "+", ["containerOutOfBoundsIndexExpression"], "void f{n}(std::vector<int>&v){{ v[v.size()]=0; }}"),
 ]
 # directives whose messages carry non-ASCII bytes verbatim (stress for the inter-process encoding and the text channel)
 UTF8_ATOMS = ['#include "h\u00e4der{n}.h"', '#ifdef CFG_U{n}\n#error \u00fcml\u00e4ut {n} \u4e2d\n#endif', '#include <sys/\u00fc{n}.h>']
 ATOM_BY_NAME = {a[0]: a for a in ATOMS}
 BENIGN = ["int ok{n}(int a){{ return a+1; }}", "/* filler {n} */", "static int sv{n} = 3; int get{n}(void){{ return sv{n}; }}"]
+
+
+_CORPUS = None
+
+
+def corpus():
+    """Self-contained functions taken from cppcheck's own library tests (sim/corpus.json, made by tools/mkcorpus.py)."""
+    global _CORPUS
+    if _CORPUS is None:
+        import json, os
+        with open(os.path.join(os.path.dirname(os.path.abspath(__file__)), "corpus.json")) as f:
+            _CORPUS = json.load(f)
+    return _CORPUS
+
+
+def corpus_chunks(rng, lang, k, used):
+    """k corpus functions not yet used in this project -> (prelude_chunk, [function chunks])."""
+    c = corpus()["cpp" if lang == "cpp" else "c"]
+    picks = []
+    for _ in range(k * 3):
+        i = rng.below(len(c["blocks"]))
+        if (lang, i) not in used:
+            used.add((lang, i)); picks.append(c["blocks"][i])
+        if len(picks) >= k:
+            break
+    return c["prelude"], picks
 
 
 def atom_ok(atom, lang):
@@ -201,7 +238,7 @@ WEIRD_NAMES = ["sp ace.c", "quo'te.c", "a.b.c", "eq=ual.c", "pl+us.c", "com,ma.c
 
 
 def gen_project(rng, n_units=None, wp=True, inline=0.25, headers=True, weird_names=0.0, big=0.0, cfg_blocks=0.3,
-                atoms=None, same_basename=0.0, lang_mix=True, max_atoms=5, utf8=0.0, hdr_inline=0.0, computed_inc=0.0):
+                atoms=None, same_basename=0.0, lang_mix=True, max_atoms=5, utf8=0.0, hdr_inline=0.0, computed_inc=0.0, corpus=0.0):
     """Returns dict(tree={path:[chunks]}, units=[paths in command-line order], langs={path:lang})."""
     ctr = Counter()
     nu = n_units or rng.randint(1, 6)
@@ -238,6 +275,7 @@ def gen_project(rng, n_units=None, wp=True, inline=0.25, headers=True, weird_nam
         units.append(p)
         langs[p] = lang
     tree = {}
+    corpus_used = set()
     hdr_atoms = []
     if headers and rng.chance(0.7 if headers is True else headers):
         # a finding located in a header shared by several units: the duplicate filters' reason to exist
@@ -315,7 +353,10 @@ def gen_project(rng, n_units=None, wp=True, inline=0.25, headers=True, weird_nam
             ln = rng.choice([3000, 5000, 40000])
             nm = "v" + ("x" * ln) + str(n)
             chunks.append("int fbig%d(void){int %s;return %s+1;}" % (n, nm, nm))
-        rng.shuffle(chunks[1 if lang == "cpp" else 0:]) if False else None
+        if corpus and rng.chance(corpus):
+            # library-test functions: far more varied library calls / containers / format strings than the atoms
+            prelude, picks = corpus_chunks(rng, lang, rng.randint(2, 7), corpus_used)
+            chunks = [prelude] + chunks + picks
         tree[u] = chunks
     return {"tree": tree, "units": units, "langs": langs}
 
@@ -330,7 +371,7 @@ BASE_ENABLE = ["--enable=style,warning,performance,portability", "--enable=all",
 
 OPTION_POOL = {
     "--platform": ["--platform=unix32", "--platform=unix64", "--platform=win64", "--platform=win32A", "--platform=win32W", "--platform=native", ""],
-    "--std": ["--std=c89", "--std=c99", "--std=c11", ""],
+    "--std": ["--std=c89", "--std=c99", "--std=c11", "--std=c++03", "--std=c++11", "--std=c99 --std=c++03", ""],
     "--language": ["--language=c++", "--language=c", ""],
     "--library": ["--library=posix", "--library=gnu", "--library=windows", "--library=posix --library=gnu", ""],
     "-D": ["-DCFG_A", "-DCFG_B", "-DCFG_A -DCFG_B", "-DCFG_V=1", "-DCFG_V=2", "-DCFG_A -DCFG_V=2", ""],
